@@ -227,6 +227,9 @@ func checkC12(w *World, r *Report) {
 	c12Verbosity(w, r)
 	c12Chain(w, r)
 	c12SideEffects(w, r)
+	c12ExplicitStatus(w, r, "C12.8")
+	c12Challenge(w, r)
+	c12PlainMediaType(w, r)
 }
 
 var expectedOrder = []string{"ErrAuthentication", "ErrAuthorization", "ErrCommunicationTimeout|ErrCommunication", "ErrArgument", "ErrNoRuleFound", "&RedirectError"}
@@ -787,3 +790,216 @@ func c12SideEffects(w *World, r *Report) {
 }
 
 var _ = constant.MakeInt64
+
+// ---- C12.8 / C01.9: a failure never yields the implicit success status ---------------------------------
+
+// c12ExplicitStatus: net/http answers 200 when a handler returns without writing a status. Every
+// path through the HTTP error translator must therefore reach a slot call or WriteHeader, and every
+// path through a slot (the function values produced for the slots) must call WriteHeader with the
+// slot's code.
+func c12ExplicitStatus(w *World, r *Report, id string) {
+	ri := r.Rule(id, 2, "every path through the HTTP error translator and through each error slot writes an explicit status code")
+	httpT, _ := translators(w)
+	if httpT == nil {
+		r.Undecided(ri, "HTTP error translator not found")
+		return
+	}
+	hs := slotOptions(w, httpEHPkg)
+	// translator: every return is preceded (on every path) by a slot call or WriteHeader
+	marks := map[*ssa.BasicBlock]bool{}
+	for _, c := range callsIn(httpT) {
+		if callName(c.Common()) == "net/http.ResponseWriter.WriteHeader" {
+			marks[c.Block()] = true
+		}
+		if c.Common().StaticCallee() == nil && !c.Common().IsInvoke() {
+			if _, f := fieldLoad(c.Common().Value); f != nil {
+				if _, isSlot := hs[f]; isSlot {
+					marks[c.Block()] = true
+				}
+			}
+		}
+	}
+	r.Ob(ri, w.FnName(httpT)+"|status-on-every-path", httpT.Pos(), !exitReachableAvoiding(httpT, marks), "a path through the error translator returns without calling a slot or WriteHeader (net/http then answers 200)")
+	// slots: the closures stored into slot fields
+	n := 0
+	seen := map[*ssa.Function]bool{}
+	for _, fn := range w.Funcs {
+		if fnPkgPath(fn) != modPath+"/"+httpEHPkg || w.isMockFn(fn) {
+			continue
+		}
+		eachInstr(fn, func(in ssa.Instruction) {
+			st, ok := in.(*ssa.Store)
+			if !ok {
+				return
+			}
+			fa, ok := st.Addr.(*ssa.FieldAddr)
+			if !ok {
+				return
+			}
+			if _, isSlot := hs[fieldOf(fa.X.Type(), fa.Field)]; !isSlot {
+				return
+			}
+			for _, o := range w.Origins(st.Val, nil) {
+				var slotFns []*ssa.Function
+				if f := closureFn(o); f != nil {
+					slotFns = append(slotFns, f)
+				}
+				if c, _ := resultOfCall(o); c != nil {
+					if callee := c.Common().StaticCallee(); callee != nil && callee.Blocks != nil {
+						for _, ret := range returnsOf(callee) {
+							if f := closureFn(ret.Results[0]); f != nil {
+								slotFns = append(slotFns, f)
+							}
+						}
+					}
+				}
+				for _, sf := range slotFns {
+					if seen[sf] {
+						continue
+					}
+					seen[sf] = true
+					n++
+					r.Analysed(w.FnName(sf))
+					m := map[*ssa.BasicBlock]bool{}
+					codeOK := true
+					for _, c := range findCalls(sf, named("net/http.ResponseWriter.WriteHeader")) {
+						m[c.Block()] = true
+						// the written code is the slot's code (captured), not a constant success
+						if cv, isC := constInt(stripConv(c.Common().Args[0])); isC && cv < 400 {
+							codeOK = false
+						}
+					}
+					r.Ob(ri, w.FnName(sf)+"|slot-writes-status", sf.Pos(), !exitReachableAvoiding(sf, m) && codeOK, "an error slot can return without WriteHeader (implicit 200) or writes a success status")
+				}
+			}
+		})
+	}
+	if n == 0 {
+		r.Undecided(ri, "no error slot function found")
+	}
+}
+
+// exitReachableAvoiding: can a Return be reached from the entry without passing a marked block?
+func exitReachableAvoiding(fn *ssa.Function, marks map[*ssa.BasicBlock]bool) bool {
+	if len(fn.Blocks) == 0 {
+		return false
+	}
+	seen := map[*ssa.BasicBlock]bool{}
+	work := []*ssa.BasicBlock{fn.Blocks[0]}
+	for len(work) > 0 {
+		b := work[len(work)-1]
+		work = work[:len(work)-1]
+		if seen[b] || marks[b] {
+			continue
+		}
+		seen[b] = true
+		if len(b.Instrs) > 0 {
+			if _, isRet := b.Instrs[len(b.Instrs)-1].(*ssa.Return); isRet {
+				return true
+			}
+		}
+		work = append(work, b.Succs...)
+	}
+	return false
+}
+
+// ---- C12.4b: the www-authenticate challenge is an authentication failure (401) --------------------------
+
+func c12Challenge(w *World, r *Report) {
+	ri := r.Rule("C12.4b", 1, "the error handler that adds the WWW-Authenticate challenge records an authentication error (401), whatever the cause was")
+	ehI := w.Iface("internal/rules/mechanisms/errorhandlers", "ErrorHandler")
+	errAuthn, _ := w.Obj("internal/heimdall", "ErrAuthentication").(*types.Var)
+	if ehI == nil || errAuthn == nil {
+		r.Undecided(ri, "anchors not found")
+		return
+	}
+	ek := w.EK()
+	n := 0
+	for _, t := range w.Implementors(ehI) {
+		fn := w.Method(t, "Execute")
+		if fn == nil || fn.Blocks == nil {
+			continue
+		}
+		challenge := false
+		for _, c := range findCalls(fn, func(c *ssa.CallCommon) bool { return c.IsInvoke() && c.Method.Name() == "AddHeaderForUpstream" }) {
+			if s, ok := constString(c.Common().Args[0]); ok && strings.EqualFold(s, "WWW-Authenticate") {
+				challenge = true
+			}
+		}
+		if !challenge {
+			continue
+		}
+		r.Analysed(w.FnName(fn))
+		for _, c := range findCalls(fn, func(c *ssa.CallCommon) bool { return c.IsInvoke() && c.Method.Name() == "SetPipelineError" }) {
+			n++
+			k := ek.ValueKinds(c.Common().Args[0], nil)
+			ok := k.kinds[errAuthn] && len(k.params) == 0
+			r.Ob(ri, w.FnName(fn)+"|challenge-is-401", c.Pos(), ok, "the challenge handler must record heimdall.ErrAuthentication; forwarding the cause would answer a challenge with the cause's status (403, 502, ...)")
+		}
+	}
+	if n == 0 {
+		r.Undecided(ri, "no error handler adds a WWW-Authenticate challenge")
+	}
+}
+
+// ---- C12.5b: a plain-text body is announced as text/plain ------------------------------------------------
+
+func c12PlainMediaType(w *World, r *Report) {
+	ri := r.Rule("C12.5b", 1, "a body rendered as plain text is announced with the text/plain media type")
+	fn := w.Func(httpEHPkg, "format")
+	if fn == nil {
+		r.Undecided(ri, "HTTP error body formatter not found")
+		return
+	}
+	r.Analysed(w.FnName(fn))
+	n := 0
+	for _, ret := range returnsOf(fn) {
+		// a return whose body is the plain rendering (Error() of the error) and whose media type is a table element
+		plain := dependsOn(w, ret.Results[1], func(x ssa.Value) bool {
+			c, ok := x.(*ssa.Call)
+			return ok && c.Common().IsInvoke() && c.Common().Method.Name() == "Error"
+		}) && !dependsOn(w, ret.Results[1], func(x ssa.Value) bool {
+			c, ok := x.(*ssa.Call)
+			return ok && (strings.Contains(callName(c.Common()), "Marshal") || strings.HasPrefix(callName(c.Common()), "fmt."))
+		})
+		if !plain {
+			continue
+		}
+		for _, o := range w.Origins(ret.Results[0], nil) {
+			u, ok := o.(*ssa.UnOp)
+			if !ok {
+				continue
+			}
+			ia, ok := u.X.(*ssa.IndexAddr)
+			if !ok {
+				continue
+			}
+			idx, isC := constInt(ia.Index)
+			root, _ := accessPath(ia.X)
+			g, isG := root.(*ssa.Global)
+			if !isC || !isG {
+				continue
+			}
+			n++
+			got := "?"
+			if initFn := g.Pkg.Func("init"); initFn != nil {
+				eachInstr(initFn, func(in ssa.Instruction) {
+					if st, ok := in.(*ssa.Store); ok && st.Addr == ssa.Value(g) {
+						els := sliceLiteralElems(st.Val)
+						if int(idx) < len(els) && els[idx] != nil {
+							if c, _ := resultOfCall(els[idx]); c != nil && len(c.Common().Args) > 0 {
+								if sv, ok := constString(c.Common().Args[0]); ok {
+									got = sv
+								}
+							}
+						}
+					}
+				})
+			}
+			r.Ob(ri, w.FnName(fn)+"|plain-body-media-type", ret.Pos(), got == "text/plain", fmt.Sprintf("the plain-text body is announced with element %d of the media type table, which is %q", idx, got))
+		}
+	}
+	if n == 0 {
+		r.Undecided(ri, "no plain-text rendering with a table media type found")
+	}
+}
